@@ -272,5 +272,5 @@ fn adjacency(c: &AdjCase) -> CaseResult {
 }
 
 pub fn register(r: &mut Run) {
-    r.subcheck("adjacency", r.cases(6_000, 300_000), adj_case, adjacency);
+    r.subcheck("adjacency", r.cases(6_000, 600_000), adj_case, adjacency);
 }
